@@ -10,8 +10,9 @@
 //   - look at their arguments AGAIN when the scripted latency has passed: slices and objects handed
 //     to the signer or the submitter must not change while the call is outstanding.  If they did, the
 //     values at return are recorded as a further event of the same kind for that call (the property
-//     predicate allows one signing request and one submission per call, so this is a violation with
-//     the input at hand) and the case is marked with a problem (so it is a mismatch as well).
+//     predicate allows one submission per call, and signing requests of one call only for validators
+//     that no other request of that call names, so this is a violation with the input at hand) and
+//     the case is marked with a problem (so it is a mismatch as well).
 //
 // Everything else (attestation data, accounts, run ids, the trace) is attenv.env's.
 package attenv
